@@ -33,85 +33,72 @@
 #include <string.h>
 #include <libgen.h>
 
-// Insert the content of "etc_file.file_entry" into "fe" if there is no
-// group specified
-size_t insert_nogroup(econf_file *dest_kf, struct file_entry **fe,
-		      econf_file *ef) {
-  size_t etc_start = 0;
-  if (ef) {
-    while (etc_start < ef->length &&
-	   !strcmp(ef->file_entry[etc_start].group, KEY_FILE_NULL_VALUE)) {
-      (*fe)[etc_start] = cpy_file_entry(dest_kf, ef->file_entry[etc_start]);
-      etc_start++;
-    }
-  }
-  return etc_start;
-}
-
-// Merge contents from existing usr_file groups
-// uf: usr_file, ef: etc_file
-size_t merge_existing_groups(econf_file *dest_kf, struct file_entry **fe, econf_file *uf,
-			     econf_file *ef, const size_t etc_start) {
-  bool new_key;
-  size_t merge_length = etc_start, tmp = etc_start, added_keys = etc_start;
-  if (uf && ef) {
-    for (size_t i = 0; i <= uf->length; i++) {
-      // Check if the group has changed in the last iteration
-      if (i == uf->length ||
-	  (i && strcmp(uf->file_entry[i].group, uf->file_entry[i - 1].group))) {
-	for (size_t j = etc_start; j < ef->length; j++) {
-	  // Check for matching groups
-	  if (!strcmp(uf->file_entry[i - 1].group, ef->file_entry[j].group)) {
-	    new_key = true;
-	    for (size_t k = merge_length; k < i + tmp; k++) {
-	      // If an existing key is found in ef take the value from ef
-	      if (!strcmp((*fe)[k].key, ef->file_entry[j].key)) {
-		free((*fe)[k].value);
-		(*fe)[k].value = ef->file_entry[j].value ? strdup(ef->file_entry[j].value) : strdup("");
-		new_key = false;
-		break;
-	      }
-	    }
-	    // If a new key is found for an existing group append it to the group
-	    if (new_key)
-	      (*fe)[i + added_keys++] = cpy_file_entry(dest_kf, ef->file_entry[j]);
-	  }
-	}
-	merge_length = i + added_keys;
-	// Temporary value to reduce amount of iterations in inner for loop
-	tmp = added_keys;
+// Copy all entries of "group" into "fe": first the entries of usr_file (uf),
+// taking the value from etc_file (ef) if the key is defined there too, then
+// the entries which are defined in etc_file (ef) only.
+static size_t merge_group(econf_file *dest_kf, struct file_entry *fe,
+			  size_t merge_length, econf_file *uf, econf_file *ef,
+			  const char *group) {
+  for (size_t i = 0; i < uf->length; i++) {
+    if (strcmp(uf->file_entry[i].group, group))
+      continue;
+    fe[merge_length] = cpy_file_entry(dest_kf, uf->file_entry[i]);
+    for (size_t j = 0; j < ef->length; j++) {
+      // If an existing key is found in ef take the value from ef
+      if (!strcmp(ef->file_entry[j].group, group) &&
+	  !strcmp(ef->file_entry[j].key, uf->file_entry[i].key)) {
+	free(fe[merge_length].value);
+	fe[merge_length].value = ef->file_entry[j].value ?
+	  strdup(ef->file_entry[j].value) : strdup("");
+	break;
       }
-      if (i != uf->length)
-	(*fe)[i + added_keys] = cpy_file_entry(dest_kf, uf->file_entry[i]);
     }
+    merge_length++;
+  }
+  for (size_t j = 0; j < ef->length; j++) {
+    if (strcmp(ef->file_entry[j].group, group))
+      continue;
+    bool new_key = true;
+    for (size_t i = 0; i < uf->length && new_key; i++) {
+      if (!strcmp(uf->file_entry[i].group, group) &&
+	  !strcmp(uf->file_entry[i].key, ef->file_entry[j].key))
+	new_key = false;
+    }
+    // If a new key is found append it to the group
+    if (new_key)
+      fe[merge_length++] = cpy_file_entry(dest_kf, ef->file_entry[j]);
   }
   return merge_length;
 }
 
-// Add entries from etc_file exclusive groups
-size_t add_new_groups(econf_file *dest_kf, struct file_entry **fe,
-		      econf_file *uf, econf_file *ef,
-		      const size_t merge_length) {
-  size_t added_keys = merge_length;
-  bool new_key;
-  if (uf && ef) {
-    for (size_t i = 0; i < ef->length; i++) {
-      if (!strcmp(ef->file_entry[i].group, KEY_FILE_NULL_VALUE))
-	continue;
-      new_key = true;
-      for (size_t j = 0; j < uf->length; j++) {
-	if (!strcmp(uf->file_entry[j].group, ef->file_entry[i].group)) {
-	  new_key = false;
-	  break;
-	}
-      }
-      if (new_key)
-	(*fe)[added_keys++] = cpy_file_entry(dest_kf, ef->file_entry[i]);
-    }
-    if (added_keys > 0)
-      *fe = realloc(*fe, (added_keys) * sizeof(struct file_entry));
+// Returns true if "group" is the group of one of the first "count" entries
+static bool group_seen(econf_file *kf, size_t count, const char *group) {
+  for (size_t i = 0; i < count; i++) {
+    if (!strcmp(kf->file_entry[i].group, group))
+      return true;
   }
-  return added_keys;
+  return false;
+}
+
+// Merge the entries of usr_file (uf) and etc_file (ef) into "fe" which has
+// to provide space for uf->length + ef->length entries.
+// Order: entries without a group, groups of uf, groups defined in ef only.
+size_t merge_entries(econf_file *dest_kf, struct file_entry *fe,
+		     econf_file *uf, econf_file *ef) {
+  size_t merge_length = merge_group(dest_kf, fe, 0, uf, ef, KEY_FILE_NULL_VALUE);
+
+  for (size_t i = 0; i < uf->length; i++) {
+    const char *group = uf->file_entry[i].group;
+    if (strcmp(group, KEY_FILE_NULL_VALUE) && !group_seen(uf, i, group))
+      merge_length = merge_group(dest_kf, fe, merge_length, uf, ef, group);
+  }
+  for (size_t j = 0; j < ef->length; j++) {
+    const char *group = ef->file_entry[j].group;
+    if (strcmp(group, KEY_FILE_NULL_VALUE) && !group_seen(ef, j, group) &&
+	!group_seen(uf, uf->length, group))
+      merge_length = merge_group(dest_kf, fe, merge_length, uf, ef, group);
+  }
+  return merge_length;
 }
 
 // Check if the given directory exists. If so look for config files
